@@ -597,8 +597,7 @@ class Model:
             raise Skip('sections full')
         if 'dup-pvd-eltorito' in self.avoid and self.pvds > 1:
             raise Skip('avoid:dup-pvd-eltorito')
-        if self.hybrid is not None and 'hybrid-efi-count' in self.avoid and op.get('efi'):
-            raise Skip('avoid:hybrid-efi-count')
+
         kw = {'bootfile_path': bootpath}
         first = self.boot is None
         platform = [0, 0, 0, 1, 2, 0xef][op.get('plat', 0) % 6]
@@ -750,8 +749,8 @@ class Model:
             raise Skip('avoid:hybrid-gpt')
         n_ef = sum(1 for e in self.boot['entries'] if e['eff_platform'] == 0xef)
         want_ef = 2 if mac else (1 if efi else 0)
-        if n_ef != want_ef and 'hybrid-efi-count' in self.avoid and (n_ef or want_ef):
-            raise Skip('avoid:hybrid-efi-count')
+        if n_ef < want_ef:
+            raise Skip('efi/mac support needs the El Torito images (documented refusal)')
         kw = {'part_entry': op.get('pe', 1), 'mbr_id': op.get('mbr_id'), 'part_offset': op.get('po', 0),
               'geometry_sectors': op.get('gs', 32), 'geometry_heads': op.get('gh', 64), 'part_type': op.get('pt'),
               'mac': mac, 'efi': efi}
